@@ -1,6 +1,7 @@
 package main
 
 import (
+	"sync"
 	"time"
 
 	v1 "github.com/keep94/sqroot"
@@ -68,6 +69,10 @@ func runFind(c *Case) []string {
 			pull(v1.FindR(s, pat), n)
 		case 7, 9:
 			take(v1.Find(s, pat), n)
+		case 11:
+			res = concSame(func() []int { return v1.FindAll(s, pat) })
+		case 12:
+			res = concSame(func() []int { return v1.FindLastN(s, pat, MaxInt) })
 		default:
 			take(v1.FindR(s, pat), n)
 		}
@@ -90,13 +95,17 @@ func runFind(c *Case) []string {
 			pull(v2.FindR(s, pat), n)
 		case 7, 9:
 			take(v2.Find(s, pat), n)
+		case 11:
+			res = concSame(func() []int { return v2.FindAll(s, pat) })
+		case 12:
+			res = concSame(func() []int { return v2.FindLastN(s, pat, MaxInt) })
 		default:
 			take(v2.FindR(s, pat), n)
 		}
 	default:
 		s := v.s3
 		f := v.fin3()
-		needFinite := fn == 2 || fn == 3 || fn == 4 || fn == 6 || fn == 8 || fn == 10
+		needFinite := fn == 2 || fn == 3 || fn == 4 || fn == 6 || fn == 8 || fn == 10 || fn == 11 || fn == 12
 		if needFinite && f == nil {
 			return []string{"NOTFINITE"}
 		}
@@ -139,6 +148,19 @@ func runFind(c *Case) []string {
 			if !eqInts(first, res) {
 				res = append(res, -777) // a re-run must give the same positions
 			}
+		case 11, 12:
+			// one iterator value shared by several goroutines ranging over it at the same time
+			m := v3.Matches(s, pat)
+			if fn == 12 {
+				m = v3.BackwardMatches(f, pat)
+			}
+			res = concSame(func() []int {
+				var got []int
+				for x := range m {
+					got = append(got, x)
+				}
+				return got
+			})
 		default:
 			m := v3.BackwardMatches(f, pat)
 			run(m, n)
@@ -157,6 +179,38 @@ func runFind(c *Case) []string {
 		t.i(calls)
 	}
 	return t
+}
+
+// concSame runs f from 4 goroutines at once, several rounds; the common answer, or the first answer followed by
+// -778 when two runs disagree (every run must give the sequential answer).
+func concSame(f func() []int) []int {
+	const g, rounds = 4, 25
+	outs := make([][]int, g*rounds)
+	for rd := 0; rd < rounds; rd++ {
+		start := make(chan struct{})
+		var wg sync.WaitGroup
+		for i := 0; i < g; i++ {
+			wg.Add(1)
+			go func(k int) {
+				defer wg.Done()
+				defer func() {
+					if e := recover(); e != nil {
+						outs[k] = []int{-779}
+					}
+				}()
+				<-start
+				outs[k] = f()
+			}(rd*g + i)
+		}
+		close(start)
+		wg.Wait()
+	}
+	for _, o := range outs[1:] {
+		if !eqInts(o, outs[0]) {
+			return append(append([]int{}, outs[0]...), -778)
+		}
+	}
+	return outs[0]
 }
 
 func eqInts(a, b []int) bool {
@@ -310,6 +364,43 @@ func genFindCase(r *Rng, ver string, kind string) (toks, bool) {
 	t.i(fn)
 	t.i(n)
 	return t, true
+}
+
+// genConcFind: complete searches run by several goroutines at once over one shared iterator value / view (C05).
+func genConcFind(r *Rng, emit func(Case), n int) {
+	for i := 0; i < n; i++ {
+		ver := allVers[i%3]
+		alpha := r.Pick([]int{1, 2, 2, 3})
+		base := r.Pick([]int{1, 3, 7})
+		L := r.Pick([]int{30, 100, 101, 230, 400, 1200})
+		raw := make([]int, L)
+		for k := range raw {
+			raw[k] = base + r.Intn(alpha)
+		}
+		sh := patShapes[r.Intn(len(patShapes))]
+		var pat []int
+		for _, x := range sh {
+			pat = append(pat, base+x%alpha)
+		}
+		ws, we := -1, -1
+		if r.Intn(3) == 0 {
+			ws = r.Pick([]int{0, 1, 50, 100, 101})
+		}
+		if r.Intn(3) == 0 {
+			we = r.Pick([]int{10, 99, 100, 101, 220})
+		}
+		var t toks
+		t.s("T")
+		t.ints(raw)
+		t.ints(nil)
+		t.i(1)
+		t.i(ws)
+		t.i(we)
+		t.ints(pat)
+		t.i(r.Pick([]int{11, 11, 12}))
+		t.i(-1)
+		emit(Case{Ver: ver, Op: "Find", Args: t})
+	}
 }
 
 func genC09(tier string, r *Rng, emit func(Case)) {
